@@ -23,8 +23,10 @@ package ledgerstore
 //           demands that heights above the tip and the blocks that are not
 //           committed give nothing; is then fed the remaining blocks (queried
 //           again after each), restarts once more cleanly and is queried again.
-//   parent  turns every disagreement into a violation keyed by query and
-//           crash point.  A ledger that does not open is a violation too.
+//   parent  turns the first disagreement of a run (in query order; the others
+//           are named in the detail) into a violation keyed by query and
+//           crash point.  A ledger that does not open is a violation too, and
+//           so is an uncrashed reference that disagrees with its own blocks.
 // thorough additionally kills the observer at every durable write of the
 // recovery itself (second crash) before the clean observation.
 //
@@ -103,8 +105,9 @@ func c40cqTxs(n byte, height uint32, ethNonce *uint64) []*types.Transaction {
 	return out
 }
 
-// c40cqBuildRef: the node that never dies; it also checks its own answers.
-func c40cqBuildRef(r *vh.Run, dir string, hist string) *c40cqRef {
+// c40cqBuildRef: the node that never dies; its own answers are checked too
+// (second result: the query pass over the uncrashed ledger).
+func c40cqBuildRef(r *vh.Run, dir string, hist string) (*c40cqRef, c40cqStage) {
 	l := vMustSolo(dir)
 	defer l.Close()
 	ref := &c40cqRef{Genesis: l.genesis.ToArray()}
@@ -131,8 +134,8 @@ func c40cqBuildRef(r *vh.Run, dir string, hist string) *c40cqRef {
 		r.Need(bytes.Equal(x.raw, want), "block %d of history %s does not survive decode+encode", i, hist)
 	}
 	st := c40cqQuery(l.ls, refs, "reference")
-	r.Need(len(st.Problems) == 0 && int(st.Height) == len(hist), "the uncrashed reference of history %s disagrees with itself: %+v", hist, st)
-	return ref
+	r.Need(int(st.Height) == len(hist), "the uncrashed reference of history %s is at height %d", hist, st.Height)
+	return ref, st
 }
 
 // c40cqRefs: what was submitted, by height (0 = genesis).
@@ -407,10 +410,10 @@ func c40cqJudge(r *vh.Run, base, dir, refFile string, nblocks int, cs c40cqCase,
 		bad("tip-height", fmt.Sprintf("the tip reported after the restart is %d, expected %d..%d", h, oldH, newH))
 		return h
 	}
-	for _, p := range first.Problems {
-		bad(p.Key, "right after the restart (tip "+strconv.Itoa(h)+"): "+p.Detail)
-	}
 	if len(first.Problems) > 0 {
+		// one key per crash run: the first disagreement in query order (the others are in the detail)
+		p := first.Problems[0]
+		bad(p.Key, fmt.Sprintf("right after the restart (tip %d): %s%s", h, p.Detail, c40cqAlso(first.Problems)))
 		return h
 	}
 	if len(rep.AddErrs) > 0 {
@@ -434,18 +437,29 @@ func c40cqJudge(r *vh.Run, base, dir, refFile string, nblocks int, cs c40cqCase,
 			bad("tip-height:"+st.Name, fmt.Sprintf("tip %d, expected %d", st.Height, wantH))
 			return h
 		}
-		for _, p := range st.Problems {
+		if len(st.Problems) > 0 {
 			where := "after the following blocks were added"
 			if st.Name == "second-restart" {
 				where = "after the whole history and one more clean restart"
 			}
-			bad(p.Key+":"+st.Name, fmt.Sprintf("%s (tip %d): %s", where, st.Height, p.Detail))
-		}
-		if len(st.Problems) > 0 {
+			p := st.Problems[0]
+			bad(p.Key+":"+st.Name, fmt.Sprintf("%s (tip %d): %s%s", where, st.Height, p.Detail, c40cqAlso(st.Problems)))
 			return h
 		}
 	}
 	return h
+}
+
+// c40cqAlso names the further disagreements of a query pass (the first one makes the key).
+func c40cqAlso(ps []c40cqProblem) string {
+	if len(ps) < 2 {
+		return ""
+	}
+	var ks []string
+	for _, p := range ps[1:] {
+		ks = append(ks, p.Key)
+	}
+	return " [also: " + strings.Join(ks, ", ") + "]"
 }
 
 func c40cqHistories(r *vh.Run) []string {
@@ -513,7 +527,19 @@ func TestVerif_C40_CrashQueries(t *testing.T) {
 			nsub = 1
 		}
 		hbase, _ := os.MkdirTemp(base, "h"+hist)
-		ref := c40cqBuildRef(r, filepath.Join(hbase, "ref"), hist)
+		ref, own := c40cqBuildRef(r, filepath.Join(hbase, "ref"), hist)
+		if len(own.Problems) > 0 {
+			// the ledger that never died already disagrees with the blocks it committed: that is the
+			// finding (no crash involved); the crash runs of this history would only repeat it
+			if sub == 0 || replay {
+				p := own.Problems[0]
+				r.Eval(1)
+				r.Violationf("crashqueries:"+p.Key+"@no-crash", c40cqCase{Unit: "crashqueries", History: hist},
+					"history %s (transactions per block), no crash, no restart: %s (%d query kinds disagree)", hist, p.Detail, len(own.Problems))
+			}
+			os.RemoveAll(hbase)
+			continue
+		}
 		refFile := filepath.Join(hbase, "ref.json")
 		rb, _ := json.Marshal(ref)
 		os.WriteFile(refFile, rb, 0644)
